@@ -257,6 +257,47 @@ pub fn c07(thorough: bool, replay: Option<String>) -> i32 {
     let (st, capped) = par_range(n, 256, cap, || (), |_, st, i| check_c07_value(st, &sp.get(i / 2), i % 2 == 0));
     rep.add_sub("trees", &format!("every tree with 1..3 leaves over {} atoms (boundary bytes, zero/ff-led, printable with quotes/backslash, 32-byte, 36-byte zero-prefixed, 4 KiB) x both modes", na), n, true, capped, st);
 
+    // (2') deep and wide shapes: left / right spines and balanced-ish combs of every depth 1..64 and at 100, 300, 1000
+    // (thorough: 3000), leaves cycling through boundary atoms - recursion depth and accumulation order of the hashes
+    {
+        let leafs: Vec<T> = vec![T::nil(), T::a(&[0]), T::a(&[0x80]), T::a(&[0xff, 0x80]), T::a(b"ab\\"), T::int(7), T::A((1..=32u8).collect())];
+        let mut depths: Vec<usize> = (1..=64).collect();
+        depths.extend([100, 300, 1000]);
+        if thorough {
+            depths.push(3000);
+        }
+        let mut shapes: Vec<T> = vec![];
+        for d in &depths {
+            for kind in 0..3 {
+                let mut t = leafs[d % leafs.len()].clone();
+                for i in 0..*d {
+                    let l = leafs[(i + kind) % leafs.len()].clone();
+                    t = match kind {
+                        0 => T::p(l, t),                                  // proper-list-like right spine
+                        1 => T::p(t, l),                                  // left spine
+                        _ => if i % 2 == 0 { T::p(l, t) } else { T::p(t, l) }, // zig-zag
+                    };
+                }
+                shapes.push(t);
+            }
+        }
+        let n = shapes.len() as u64 * 2;
+        let shapes = std::sync::Arc::new(shapes);
+        let sh = shapes.clone();
+        let (st, capped) = par_range(n, 4, cap, || (), move |_, st, i| {
+            let t = sh[(i / 2) as usize].clone();
+            let fixed = i % 2 == 0;
+            // deep values: run on a big stack so that the harness's own recursion is not the limit
+            let mut local = Stats::new();
+            let r = crate::par::with_big_stack(move || {
+                check_c07_value(&mut local, &t, fixed);
+                local
+            });
+            st.merge(r);
+        });
+        rep.add_sub("deep-shapes", &format!("{} spines and zig-zags (right, left, alternating) of depth 1..64, 100, 300, 1000{} with boundary atoms as leaves x both modes", shapes.len(), if thorough { ", 3000" } else { "" }), n, true, capped, st);
+    }
+
     // (3) equality clause, fixed mode
     let mut atoms: Vec<Vec<u8>> = vec![];
     for i in 0..bytes_upto_count(1) {
